@@ -87,6 +87,9 @@ def _reset_process_globals():
 
 
 #: functions whose lines touch shared state without a lock around the whole step: pre-empted more often
+#: set by selftest/coverage.py: (file, line) of every SDK line executed under the line tracer (reach measurement only)
+COVER = None
+
 HOT_FUNCTIONS = frozenset({
     "_on_task_complete", "_create_result", "_decide_suspend", "should_execution_suspend", "_timer_loop", "schedule_resume",
     "submit_task", "resubmitter", "execute", "create_checkpoint", "_enqueue", "_collect_checkpoint_batch",
@@ -398,6 +401,8 @@ class Sim:
     def _line_tracer(self, frame, event, arg):
         if event == "line":
             self.line_events += 1
+            if COVER is not None:
+                COVER.add((frame.f_code.co_filename, frame.f_lineno))
             if self.killed or self.finished:
                 return self._line_tracer
             cur = getattr(_tls, "cur", None)
